@@ -55,7 +55,8 @@ def main():
                 report = {"unsupported": [f"extractor failed: {e!r}"]}
             ctx.notes["extract"] = report
             for u in report.get("unsupported", []):
-                if any(u.startswith(g) for g in getattr(mod, "GEN_DEPENDS", [])) or u.startswith("extractor failed"):
+                if any(u.startswith(g) or u.startswith(g.rstrip(".") + ": generator failed") for g in getattr(mod, "GEN_DEPENDS", [])) \
+                        or u.startswith("extractor failed"):
                     ctx.broken.append(f"extract: {u}")
             ok, log = common.lake_build(["b2zdriver"])
             if not ok:
